@@ -18,6 +18,7 @@ import (
 	"encoding/json"
 	"fmt"
 	"math/rand"
+	"os"
 	"sort"
 	"strings"
 	"time"
@@ -36,6 +37,7 @@ import (
 	delegationtypes "github.com/ExocoreNetwork/exocore/x/delegation/types"
 	dogfoodtypes "github.com/ExocoreNetwork/exocore/x/dogfood/types"
 	"github.com/ExocoreNetwork/exocore/x/oracle"
+	exotx "github.com/ExocoreNetwork/exocore/testutil/tx"
 	oraclekeeper "github.com/ExocoreNetwork/exocore/x/oracle/keeper"
 	oracletypes "github.com/ExocoreNetwork/exocore/x/oracle/types"
 )
@@ -121,6 +123,7 @@ type c14Cfg struct {
 	Intervals [2]uint64
 	Starts    [2]uint64
 	MaxNonce  int32
+	ChainID   string `json:",omitempty"` // "" = the default (mainnet-type) chain id
 }
 
 func c14NewWorld(cfg c14Cfg) *c14World {
@@ -129,7 +132,7 @@ func c14NewWorld(cfg c14Cfg) *c14World {
 		ops[i] = OperatorCfg{Deposit: d}
 	}
 	oracle.VerifC14Restart()
-	env := NewEnv(EnvCfg{Operators: ops, MutGenesis: func(app *exocoreapp.ExocoreApp, gs map[string]json.RawMessage) {
+	env := NewEnv(EnvCfg{ChainID: cfg.ChainID, Operators: ops, MutGenesis: func(app *exocoreapp.ExocoreApp, gs map[string]json.RawMessage) {
 		var og oracletypes.GenesisState
 		app.AppCodec().MustUnmarshalJSON(gs[oracletypes.ModuleName], &og)
 		for i := 0; i < 2; i++ {
@@ -319,6 +322,41 @@ func (w *c14World) undelegate(op int, amt int64) (code int) {
 		return 5
 	}
 	mwrite()
+	return 0
+}
+
+// simulateUpdateParams makes THIS node answer a gas-estimation request (baseapp Simulate, the path of the simulate RPC) for
+// a signed MsgUpdateParams of an ordinary funded account. On a chain id that is not mainnet-type the handler does not
+// check the authority, so the message executes - on the check state, whose writes are dropped. Nothing of it may leak
+// into the node's consensus behaviour. Returns a class: 0 simulated ok, 1 simulation returned an error, 9 panic.
+func (w *c14World) simulateUpdateParams() (code int) {
+	defer func() {
+		if r := recover(); r != nil {
+			code = 9
+		}
+	}()
+	ctx := w.env.Ctx
+	h := uint64(ctx.BlockHeight())
+	cur := w.env.App.OracleKeeper.GetParams(ctx)
+	var p oracletypes.Params
+	p.Tokens = []*oracletypes.Token{{Name: "TKS", ChainID: 1, ContractAddress: "0xs", Decimal: 8, Active: true, AssetID: ""}}
+	p.TokenFeeders = []*oracletypes.TokenFeeder{{TokenID: uint64(len(cur.Tokens)), RuleID: 1, StartRoundID: 1, StartBaseBlock: h + 1, Interval: uint64(2 * cur.MaxNonce)}}
+	msg := &oracletypes.MsgUpdateParams{Authority: sdk.AccAddress(w.env.AccAddrs[0].Bytes()).String(), Params: p}
+	txCfg := w.env.App.GetTxConfig()
+	tx, err := exotx.PrepareCosmosTx(ctx, w.env.App, exotx.CosmosTxArgs{TxCfg: txCfg, Priv: w.env.AccPrivs[0], ChainID: w.env.ChainID, Gas: 500000, Msgs: []sdk.Msg{msg}})
+	if err != nil {
+		return 8
+	}
+	bz, err := txCfg.TxEncoder()(tx)
+	if err != nil {
+		return 8
+	}
+	if _, _, err := w.env.App.Simulate(bz); err != nil {
+		if os.Getenv("C14_DEBUG") != "" {
+			fmt.Fprintln(os.Stderr, "simulate:", err)
+		}
+		return 1
+	}
 	return 0
 }
 
@@ -905,6 +943,7 @@ type c14Plan struct {
 	undAt  int
 	undOp  int
 	undAmt int64
+	simTwins bool
 	depOp  int
 	depAmt int64
 	style  int
@@ -957,6 +996,11 @@ func c14Directed() []c14Plan {
 	d9[7].Txs = []c14Tx{{Val: 0, Feeder: 1, Nonce: 1, Based: 7, Prices: px(1, 100)}}
 	d10 := e(14)
 	d10[4].ParamUpd = 4
+	// testnet-type chain id: UpdateParams does not check the authority there, so ANY funded account's message executes
+	// when a node simulates it. The history itself has a few submissions; the twins of kind "sim" serve one simulation each.
+	testnet := c14Cfg{Deposits: []int64{101, 100}, Intervals: [2]uint64{6, 10}, Starts: [2]uint64{1, 1}, MaxNonce: 3, ChainID: "exocoretestnet_233-1"}
+	d11 := e(12)
+	d11[7].Txs = []c14Tx{{Val: 0, Feeder: 1, Nonce: 1, Based: 7, Prices: px(1, 100)}}
 	d3 := e(16)
 	for i := range d3 {
 		d3[i].DT = 20
@@ -972,6 +1016,7 @@ func c14Directed() []c14Plan {
 		{name: "reg-window-underflow", cfg: four, blocks: d7, n: 12, puAt: -1, depAt: -1, undAt: -1},
 		{name: "reg-register-existing-token", cfg: two, blocks: d9, n: 14, puAt: -1, depAt: -1, undAt: -1},
 		{name: "reg-register-new-token", cfg: two, blocks: d10, n: 14, puAt: -1, depAt: -1, undAt: -1},
+		{name: "reg-simulate-update-params", cfg: testnet, blocks: d11, n: 12, puAt: -1, depAt: -1, undAt: -1, simTwins: true},
 		{name: "reg-valset-removal", cfg: three, blocks: d8, n: 18, puAt: -1, depAt: -1, undAt: -1},
 	}
 }
@@ -1072,7 +1117,10 @@ func runC14(a *Args) error {
 			w.CountN("fin_rounds", len(o.Fins))
 		}
 		// restarted twins, highest restart height first (rollback deletes later versions)
-		type plannedTwin struct{ rs []int64 }
+		type plannedTwin struct {
+			rs  []int64
+			sim bool // the twin additionally serves a Simulate(MsgUpdateParams) request right after its restart
+		}
 		var twins []plannedTwin
 		var multi []int64
 		if nBlocks > 8 { // one twin that is restarted several times
@@ -1080,11 +1128,14 @@ func runC14(a *Args) error {
 			multi = []int64{r1, r1 + 1 + int64(rng.Intn(3)), r1 + 5 + int64(rng.Intn(2))}
 		}
 		for r := int64(nBlocks - 1); r >= 1; r-- {
-			twins = append(twins, plannedTwin{[]int64{r}})
+			twins = append(twins, plannedTwin{rs: []int64{r}})
+			if plan.simTwins {
+				twins = append(twins, plannedTwin{rs: []int64{r}, sim: true})
+			}
 			// the multi-restart twin needs the never-stopped run's versions <= its first restart height: run it
 			// before any single twin with a lower restart height overwrites them
 			if multi != nil && r == multi[0] {
-				twins = append(twins, plannedTwin{multi})
+				twins = append(twins, plannedTwin{rs: multi})
 			}
 		}
 		for _, tw := range twins {
@@ -1108,6 +1159,9 @@ func runC14(a *Args) error {
 				twin = append(twin, c14Obs{Height: r, Panic: true})
 				first = fmt.Sprintf("panic@%d", r)
 			} else {
+				if tw.sim {
+					w.Count(fmt.Sprintf("simulate_class_%d", world.simulateUpdateParams()))
+				}
 				o0 := world.observe(r, cont[r-1].Codes, cont[r-1].VU)
 				recached = world.memProj(o0.Mem)
 				twin = append(twin, o0)
@@ -1159,6 +1213,9 @@ func runC14(a *Args) error {
 			if len(tw.rs) > 1 {
 				kind = "multi"
 			}
+			if tw.sim {
+				kind = "sim"
+			}
 			cj := c14CaseJSON{Hist: hi, Kind: plan.name + "/" + kind, Restarts: tw.rs, History: hist, Cont: cont[r-1:], Twin: twin,
 				Equal: first == "", FirstDiff: first, NT: true, MemCont: memC, MemTwin: memT, Tags: tags}
 			if first == "" {
@@ -1173,7 +1230,7 @@ func runC14(a *Args) error {
 				w.Count("case_" + t)
 			}
 			w.Count("case_" + kind)
-			term := cApp("mkCase", coqParams, coqVals, coqNext0, cBool(modelled && len(tw.rs) == 1), cBool(len(tags) > 0), cList(blkCoq[:r]), recached,
+			term := cApp("mkCase", coqParams, coqVals, coqNext0, cBool(modelled && len(tw.rs) == 1 && !tw.sim), cBool(len(tags) > 0), cList(blkCoq[:r]), recached,
 				c14ObsList(cont[r-1:]), c14ObsList(twin))
 			w.Add(term, cj)
 			nCases++
